@@ -1,14 +1,17 @@
-//! C03 — snapshot acquisition and reads against the publication steps of commit and
-//! compaction, on the real engine, driven by explicit schedules through the schedule
-//! points (`commit.*`, `compact.*`, `snap.*`).
+//! C03 — snapshot acquisition and reads against commit and compaction on the real engine, driven by
+//! explicit schedules through the schedule points (`commit.*`, `compact.*`, `snap.*`).
 //!
-//! Thread 0 is the writer (a history of commits / compactions through `Db`), threads 1..
-//! are readers (`Db::snapshot()` then k full reads).  One schedule entry = one model step
-//! = the code between two points.  Every observed view goes to the model (`Corr/C03.v`).
-//! Direct search: every view must be the committed state after some prefix of the history
-//! within the bounds given by the schedule, and all views of one snapshot must be equal;
-//! failures are tagged K-C03-torn / K-C03-inplace only when the schedule satisfies the
-//! class predicate.
+//! Thread 0 is the writer (a history of commits / compactions through `Db`), threads 1.. are readers
+//! (`Db::snapshot()` then k full reads).  One schedule entry = one step of the model `Conc/Snapshot.v`:
+//! WLog, WPublish, CPersist, CSink, CLog, CPublish, RAcquire, RRead.  A publication section (WPublish,
+//! CPublish) and an acquisition (RAcquire) span several points; they run under the engine's publish_lock and
+//! are driven through all their points in one go.  That the lock really excludes an acquisition inside a
+//! publication section (and vice versa) is PROBED on the real code: the other thread is released with a short
+//! timeout and must stay blocked.
+//! Every observed view goes to the model (`Corr/C03.v`).  Direct search: a read is SAFE when no sink step ran
+//! since its snapshot was acquired or the snapshot has no property root; a safe read must be exactly the
+//! committed state after the operations published at the acquisition; an unsafe read that differs is tagged
+//! K-C03-inplace.
 use hx_conc::*;
 use nervusdb::{Db, GraphSnapshot, PropertyValue};
 use serde_json::json;
@@ -35,10 +38,13 @@ struct View {
     edges: Vec<(u32, u32)>, // sorted
 }
 
-const COMMIT_POINTS: &[&str] = &["commit.logged", "commit.idmap", "commit.node_labels", "commit.run"];
-const COMPACT_POINTS: &[&str] =
-    &["compact.persisted", "compact.sunk", "compact.logged", "compact.props_root", "compact.stats_root", "compact.runs_cleared", "compact.segments"];
-const ACQ_POINTS: &[&str] = &["snap.i2e", "snap.runs", "snap.segments", "snap.labels", "snap.node_labels", "snap.props_root", "r.acquired"];
+const WLOG: &[&str] = &["commit.logged"];
+const WPUBLISH: &[&str] = &["commit.idmap", "commit.node_labels", "commit.run"];
+const CPERSIST: &[&str] = &["compact.persisted"];
+const CSINK: &[&str] = &["compact.sunk"];
+const CLOG: &[&str] = &["compact.logged"];
+const CPUBLISH: &[&str] = &["compact.props_root", "compact.stats_root", "compact.runs_cleared", "compact.segments"];
+const RACQUIRE: &[&str] = &["snap.i2e", "snap.runs", "snap.segments", "snap.labels", "snap.node_labels", "snap.props_root", "r.acquired"];
 
 fn coq_tx(x: &Tx) -> String {
     format!(
@@ -72,8 +78,6 @@ fn spec_view(h: &[WOp], j: usize) -> View {
     for o in &h[..j] {
         if let WOp::Commit(x) = o {
             nodes.extend(&x.nodes);
-            // within one transaction the first entry for a node wins in the model (assoc); generated
-            // transactions have at most one entry per node
             for (n, v) in x.props.iter().rev() {
                 props.insert(*n, *v);
             }
@@ -106,23 +110,30 @@ fn read_view(snap: &nervusdb::DbSnapshot, universe: u32) -> View {
     View { nodes, labeled, props, edges }
 }
 
-struct Outcome {
-    obs: Vec<(usize, View)>,
-    executed: Vec<usize>,
-    anomaly: Option<String>,
-    // per reader: (ops completed at first acquisition step, ops started at last acquisition step, torn class, root set at acquisition)
-    windows: BTreeMap<usize, (usize, usize, bool, bool)>,
-    // per observation (same order as obs): a sink step ran between the reader's acquisition and this read
-    sink_before: Vec<bool>,
+/// model steps of one writer operation: (name, points the step runs through)
+fn op_steps(o: &WOp) -> Vec<(&'static str, &'static [&'static str])> {
+    match o {
+        WOp::Commit(_) => vec![("WLog", WLOG), ("WPublish", WPUBLISH)],
+        WOp::Compact => vec![("CPersist", CPERSIST), ("CSink", CSINK), ("CLog", CLOG), ("CPublish", CPUBLISH)],
+    }
+}
+fn steps_of(h: &[WOp]) -> usize {
+    h.iter().map(|o| op_steps(o).len()).sum()
 }
 
-fn drive(hist: &[WOp], readers: &[usize], sched: &[usize]) -> Outcome {
+struct Scenario {
+    _dir: tempfile::TempDir,
+    baton: Arc<Baton>,
+    handles: Vec<std::thread::JoinHandle<()>>,
+    obs: Arc<Mutex<Vec<(usize, View)>>>,
+    n: usize,
+}
+
+fn start(hist: &[WOp], readers: &[usize]) -> Result<Scenario, String> {
     let dir = tempfile::tempdir().unwrap();
     let db = Arc::new(Db::open(dir.path().join("c03")).expect("open"));
     {
-        // intern the label and the relationship type up front; the transaction itself is empty
-        let tx = db.begin_write();
-        let mut tx = tx;
+        let mut tx = db.begin_write();
         tx.get_or_create_label("N").unwrap();
         tx.get_or_create_rel_type("R").unwrap();
         tx.commit().unwrap();
@@ -184,93 +195,186 @@ fn drive(hist: &[WOp], readers: &[usize], sched: &[usize]) -> Outcome {
             }
         }));
     }
-    let mut anomaly = None;
     for t in 0..n {
         match baton.wait_parked(t) {
             Reached::Parked("w.op") | Reached::Parked("r.start") | Reached::Finished => {}
-            r => anomaly = Some(format!("thread {} first reached {:?}", t, r)),
+            r => return Err(format!("thread {} first reached {:?}", t, r)),
         }
     }
-    // controller state mirroring the model's program counters
-    let mut wop = 0usize; // index of the writer's current operation
-    let mut wpos = 0usize; // steps of it already executed
-    let mut rpos = vec![0usize; n]; // reader: steps executed (7 acquisition steps, then reads)
+    Ok(Scenario { _dir: dir, baton, handles, obs, n })
+}
+
+impl Scenario {
+    fn finish(self) -> Vec<(usize, View)> {
+        self.baton.free_run();
+        for h in self.handles {
+            let _ = h.join();
+        }
+        Baton::uninstall();
+        let o = self.obs.lock().unwrap().clone();
+        o
+    }
+    /// run thread t through the given points, one after the other
+    fn through(&self, t: usize, pts: &[&str]) -> Result<(), String> {
+        for p in pts {
+            match self.baton.step(t) {
+                Reached::Parked(q) if q == *p => {}
+                r => return Err(format!("thread {} expected {}, reached {:?}", t, p, r)),
+            }
+        }
+        Ok(())
+    }
+}
+
+struct Outcome {
+    obs: Vec<(usize, View)>,
+    safe: Vec<bool>,
+    acq_j: Vec<usize>, // per observation: operations published when its snapshot was acquired
+    executed: Vec<usize>,
+    anomaly: Option<String>,
+}
+
+fn drive(hist: &[WOp], readers: &[usize], sched: &[usize]) -> Outcome {
+    let sc = match start(hist, readers) {
+        Ok(s) => s,
+        Err(e) => return Outcome { obs: vec![], safe: vec![], acq_j: vec![], executed: vec![], anomaly: Some(e) },
+    };
+    let n = sc.n;
+    let wsteps: Vec<(&str, &[&str])> = hist.iter().flat_map(|o| op_steps(o)).collect();
+    let mut wpc = 0usize; // writer: model steps executed
+    let mut published = 0usize; // operations whose publication completed
+    let mut sinks = 0usize;
+    let mut root = false;
+    let mut rpc = vec![0usize; n];
+    let mut r_j = vec![0usize; n];
+    let mut r_sinks = vec![0usize; n];
+    let mut r_root = vec![false; n];
     let mut executed = vec![];
-    let mut windows: BTreeMap<usize, (usize, usize, bool, bool)> = BTreeMap::new();
-    let mut writer_steps_total = 0usize;
-    let mut first_acq_wsteps = vec![0usize; n];
-    let mut root_set = false;
-    let mut sinks_done = 0usize;
-    let mut sinks_at_acq = vec![0usize; n];
-    let mut sink_before = vec![];
+    let mut anomaly: Option<String> = None;
+    let mut safe = vec![];
+    let mut acq_j = vec![];
     for &t in sched {
         executed.push(t);
-        if anomaly.is_some() || t >= n || baton.is_finished(t) {
+        if anomaly.is_some() || t >= n || sc.baton.is_finished(t) {
             continue;
         }
         if t == 0 {
-            let pts: &[&str] = match &hist[wop] {
-                WOp::Commit(_) => COMMIT_POINTS,
-                WOp::Compact => COMPACT_POINTS,
-            };
-            match baton.step(0) {
-                Reached::Parked(p) if p == pts[wpos] => {
-                    writer_steps_total += 1;
-                    if p == "compact.sunk" {
-                        sinks_done += 1;
-                    }
-                    if p == "compact.props_root" {
-                        root_set = true;
-                    }
-                    wpos += 1;
-                    if wpos == pts.len() {
-                        wpos = 0;
-                        wop += 1;
-                        match baton.step(0) {
-                            Reached::Parked("w.op") | Reached::Finished => {}
-                            r => anomaly = Some(format!("writer after an operation reached {:?}", r)),
-                        }
-                    }
-                }
-                r => anomaly = Some(format!("writer expected {}, reached {:?}", pts[wpos], r)),
+            if wpc >= wsteps.len() {
+                continue;
             }
-        } else {
-            let k = rpos[t];
-            if k == 0 {
-                windows.insert(t, (wop, 0, wpos != 0, false));
-                first_acq_wsteps[t] = writer_steps_total;
+            let (name, pts) = wsteps[wpc];
+            if let Err(e) = sc.through(0, pts) {
+                anomaly = Some(e);
+                continue;
             }
-            let r = baton.step(t);
-            if k < ACQ_POINTS.len() {
-                if r != Reached::Parked(ACQ_POINTS[k]) && !(k + 1 == ACQ_POINTS.len() && r == Reached::Finished) {
-                    anomaly = Some(format!("reader {} expected {}, reached {:?}", t, ACQ_POINTS[k], r));
+            wpc += 1;
+            match name {
+                "CSink" => sinks += 1,
+                "WPublish" | "CPublish" => {
+                    published += 1;
+                    if name == "CPublish" {
+                        root = true;
+                    }
+                    // back to the harness code between two operations (or the end of the thread)
+                    match sc.baton.step(0) {
+                        Reached::Parked("w.op") | Reached::Finished => {}
+                        r => anomaly = Some(format!("writer after an operation reached {:?}", r)),
+                    }
                 }
-                if k == 5 {
-                    // RRoot done: the window closes here (RStats has no effect on the view)
-                    let w = windows.get_mut(&t).unwrap();
-                    w.1 = wop + if wpos != 0 { 1 } else { 0 };
-                    w.2 = w.2 || writer_steps_total != first_acq_wsteps[t];
-                    w.3 = root_set;
-                    sinks_at_acq[t] = sinks_done;
-                }
-            } else {
-                match r {
-                    Reached::Parked("r.readdone") | Reached::Finished => sink_before.push(sinks_done != sinks_at_acq[t]),
-                    r => anomaly = Some(format!("reader {} in a read reached {:?}", t, r)),
-                }
+                _ => {}
             }
-            rpos[t] += 1;
+        } else if rpc[t] == 0 {
+            if let Err(e) = sc.through(t, RACQUIRE) {
+                anomaly = Some(e);
+                continue;
+            }
+            r_j[t] = published;
+            r_sinks[t] = sinks;
+            r_root[t] = root;
+            rpc[t] = 1;
+        } else if rpc[t] <= readers[t - 1] {
+            match sc.baton.step(t) {
+                Reached::Parked("r.readdone") | Reached::Finished => {
+                    safe.push(!r_root[t] || sinks == r_sinks[t]);
+                    acq_j.push(r_j[t]);
+                }
+                r => anomaly = Some(format!("reader {} in a read reached {:?}", t, r)),
+            }
+            rpc[t] += 1;
         }
     }
-    baton.free_run();
-    for h in handles {
-        let _ = h.join();
-    }
-    Baton::uninstall();
-    // reads performed after the schedule ended (free run) are not part of the case
-    let mut o = obs.lock().unwrap().clone();
-    o.truncate(sink_before.len());
-    Outcome { obs: o, executed, anomaly, windows, sink_before }
+    let mut obs = sc.finish();
+    obs.truncate(safe.len()); // reads performed in the free run after the schedule are not part of the case
+    Outcome { obs, safe, acq_j, executed, anomaly }
+}
+
+/// the publication lock on the real code: an acquisition cannot start inside a publication section and a
+/// publication section cannot start inside an acquisition
+fn probes() -> Vec<(String, Result<(), String>)> {
+    let tx1 = Tx { nodes: vec![1], props: vec![(1, 5)], edges: vec![(1, 1)] };
+    let short = std::time::Duration::from_millis(400);
+    let long = std::time::Duration::from_secs(20);
+    let mut out = vec![];
+    // (i) writer parked inside the commit's publication section
+    let r = (|| -> Result<(), String> {
+        let sc = start(&[WOp::Commit(tx1.clone())], &[1])?;
+        sc.through(0, WLOG)?;
+        sc.through(0, &["commit.idmap"])?;
+        let res = match sc.baton.step_probe(1, short) {
+            Reached::Stuck => {
+                sc.through(0, &["commit.node_labels", "commit.run"])?;
+                match sc.baton.wait_parked_for(1, long) {
+                    Reached::Parked("snap.i2e") => Ok(()),
+                    r => Err(format!("after the publication section the reader reached {:?}", r)),
+                }
+            }
+            r => Err(format!("a snapshot acquisition started inside a commit's publication section (reader reached {:?} while the writer is parked at commit.idmap): snapshots can be torn", r)),
+        };
+        sc.finish();
+        res
+    })();
+    out.push(("reader-blocked-by-commit-publication".to_string(), r));
+    // (ii) writer parked inside the compaction's publication section
+    let r = (|| -> Result<(), String> {
+        let sc = start(&[WOp::Commit(tx1.clone()), WOp::Compact], &[1])?;
+        sc.through(0, WLOG)?;
+        sc.through(0, WPUBLISH)?;
+        sc.baton.step(0);
+        sc.through(0, &["compact.persisted", "compact.sunk", "compact.logged", "compact.props_root", "compact.stats_root", "compact.runs_cleared"])?;
+        let res = match sc.baton.step_probe(1, short) {
+            Reached::Stuck => {
+                sc.through(0, &["compact.segments"])?;
+                match sc.baton.wait_parked_for(1, long) {
+                    Reached::Parked("snap.i2e") => Ok(()),
+                    r => Err(format!("after the publication section the reader reached {:?}", r)),
+                }
+            }
+            r => Err(format!("a snapshot acquisition started between clear_runs and install_segments (reader reached {:?}): relationships can be lost", r)),
+        };
+        sc.finish();
+        res
+    })();
+    out.push(("reader-blocked-by-compaction-publication".to_string(), r));
+    // (iii) reader parked inside its acquisition
+    let r = (|| -> Result<(), String> {
+        let sc = start(&[WOp::Commit(tx1.clone())], &[1])?;
+        sc.through(0, WLOG)?;
+        sc.through(1, &["snap.i2e", "snap.runs"])?;
+        let res = match sc.baton.step_probe(0, short) {
+            Reached::Stuck => {
+                sc.through(1, &["snap.segments", "snap.labels", "snap.node_labels", "snap.props_root", "r.acquired"])?;
+                match sc.baton.wait_parked_for(0, long) {
+                    Reached::Parked("commit.idmap") => Ok(()),
+                    r => Err(format!("after the acquisition the writer reached {:?}", r)),
+                }
+            }
+            r => Err(format!("a commit's publication section started inside a snapshot acquisition (writer reached {:?} while the reader is parked at snap.runs): snapshots can be torn", r)),
+        };
+        sc.finish();
+        res
+    })();
+    out.push(("writer-blocked-by-acquisition".to_string(), r));
+    out
 }
 
 fn gen_history(r: &mut Rng, ops: usize) -> Vec<WOp> {
@@ -310,9 +414,6 @@ fn gen_history(r: &mut Rng, ops: usize) -> Vec<WOp> {
     }
     h
 }
-fn steps_of(h: &[WOp]) -> usize {
-    h.iter().map(|o| if let WOp::Commit(_) = o { 4 } else { 7 }).sum()
-}
 
 fn main() {
     let a = args();
@@ -324,98 +425,59 @@ fn main() {
     let mut nontrivial = BTreeSet::<(Vec<WOp>, Vec<usize>, Vec<usize>)>::new();
     let mut fails = 0u64;
 
+    // ---- the publication lock really excludes what the model treats as atomic
+    for (name, res) in probes() {
+        *hist.entry(format!("probe:{}:{}", name, if res.is_ok() { "blocked" } else { "NOT-blocked" })).or_insert(0) += 1;
+        if let Err(e) = res {
+            fails += 1;
+            rep.fail(0, None, &e, json!({"probe": name}));
+        }
+    }
+
     let tx1 = Tx { nodes: vec![1], props: vec![(1, 5)], edges: vec![(1, 1)] };
     let tx2 = Tx { nodes: vec![], props: vec![(1, 6)], edges: vec![] };
-    let mut cases: Vec<(String, Vec<WOp>, Vec<usize>, Vec<usize>)> = vec![];
-    // corpus = the witnesses of Props/C03.v
-    cases.push(("corpus:torn-commit".into(), vec![WOp::Commit(tx1.clone())], vec![1], vec![0, 0, 1, 1, 1, 1, 1, 1, 1, 1, 0, 0]));
-    cases.push(("corpus:torn-compact-lost".into(), vec![WOp::Commit(tx1.clone()), WOp::Compact], vec![1],
-        [vec![0; 10], vec![1; 8], vec![0]].concat()));
-    cases.push(("corpus:torn-compact-doubled".into(), vec![WOp::Commit(tx1.clone()), WOp::Compact], vec![1],
-        [vec![0; 4], vec![1; 2], vec![0; 7], vec![1; 6]].concat()));
     let inplace_h = vec![WOp::Commit(tx1.clone()), WOp::Compact, WOp::Commit(tx2.clone()), WOp::Compact];
-    cases.push(("corpus:inplace".into(), inplace_h.clone(), vec![3],
-        [vec![0; 11], vec![1; 7], vec![1], vec![0; 4], vec![1], vec![0; 7], vec![1]].concat()));
-    cases.push(("corpus:quiescent".into(), inplace_h.clone(), vec![1], [vec![0; 11], vec![1; 8]].concat()));
-    // all interleavings of one commit (4 steps) with one acquisition + read (8 steps): 495
+    let mut cases: Vec<(String, Vec<WOp>, Vec<usize>, Vec<usize>)> = vec![];
+    // corpus = the witness / examples of Conc/Snapshot_proofs.v
+    cases.push(("corpus:inplace".into(), inplace_h.clone(), vec![3], [vec![0; 6], vec![1, 1], vec![0; 2], vec![1], vec![0; 2], vec![1]].concat()));
+    cases.push(("corpus:three-readers".into(), inplace_h.clone(), vec![1, 1, 2], vec![0, 1, 0, 2, 2, 1, 0, 0, 0, 0, 3, 3, 0, 0, 3]));
+    // all interleavings of the in-place history (12 writer steps) with one reader (acquire + 2 reads): 455
+    let all = interleavings(&[12, 3]);
     let exhaustive = a.tier == "thorough" || a.n >= 600;
-    let all = interleavings(&[4, 8]);
     for (i, s) in all.into_iter().enumerate() {
         if exhaustive || i % 4 == 0 {
-            cases.push(("exhaustive:commit-x-acquire".into(), vec![WOp::Commit(tx1.clone())], vec![1], s));
+            cases.push(("exhaustive:inplace-history-x-reader".into(), inplace_h.clone(), vec![2], s));
         }
-    }
-    // one compaction (7 steps, after a commit) against one acquisition + read: 6435 interleavings, sampled
-    let comp = interleavings(&[7, 8]);
-    let take = if a.tier == "thorough" { 1500 } else { 150 };
-    for _ in 0..take {
-        let s = r.pick(&comp).clone();
-        cases.push(("sampled:compact-x-acquire".into(), vec![WOp::Commit(tx1.clone()), WOp::Compact], vec![1], [vec![0; 4], s].concat()));
     }
     while cases.len() < a.n {
-        if r.chance(1, 6) {
-            // in-place family: a snapshot acquired after a compaction is held across later commits and compactions
-            let v1 = r.range(1, 9);
-            let v2 = r.range(1, 9);
-            let h = vec![
-                WOp::Commit(Tx { nodes: vec![1, 2], props: vec![(1, v1), (2, v1 + 1)], edges: vec![(1, 2)] }),
-                WOp::Compact,
-                WOp::Commit(Tx { nodes: vec![3], props: vec![(if r.chance(1, 2) { 1 } else { 2 }, v2)], edges: vec![(3, 1)] }),
-                WOp::Compact,
-            ];
-            let reads = 2 + r.below(2) as usize;
-            let mut tail: Vec<usize> = vec![0; 11];
-            for _ in 0..reads {
-                let q = r.below(tail.len() as u64 + 1) as usize;
-                tail.insert(q, 1);
-            }
-            cases.push(("generated-inplace".into(), h, vec![reads], [vec![0; 11], vec![1; 7], tail].concat()));
-            continue;
-        }
-        let nops = 2 + r.below(4) as usize;
+        let nops = 2 + r.below(5) as usize;
         let h = gen_history(&mut r, nops);
-        let nr = 1 + r.below(2) as usize;
+        let nr = 1 + r.below(3) as usize;
         let readers: Vec<usize> = (0..nr).map(|_| 1 + r.below(3) as usize).collect();
         let mut sched: Vec<usize> = vec![0; steps_of(&h)];
         for (i, k) in readers.iter().enumerate() {
-            sched.extend(std::iter::repeat(i + 1).take(7 + k));
+            sched.extend(std::iter::repeat(i + 1).take(1 + k));
         }
-        match r.below(3) {
-            0 => {
-                // fully random interleaving
-                for i in (1..sched.len()).rev() {
-                    let j = r.below(i as u64 + 1) as usize;
-                    sched.swap(i, j);
-                }
-            }
-            _ => {
-                // bursty: readers acquire in one go at a random position (often quiescent), reads spread out
-                let mut s: Vec<usize> = vec![0; steps_of(&h)];
-                for (i, k) in readers.iter().enumerate() {
-                    let p = r.below(s.len() as u64 + 1) as usize;
-                    for _ in 0..7 {
-                        s.insert(p, i + 1);
-                    }
-                    for _ in 0..*k {
-                        let q = p + 7 + r.below((s.len() - p - 7) as u64 + 1) as usize;
-                        s.insert(q, i + 1);
-                    }
-                }
-                sched = s;
-            }
+        for i in (1..sched.len()).rev() {
+            let j = r.below(i as u64 + 1) as usize;
+            sched.swap(i, j);
+        }
+        if r.chance(1, 8) {
+            let cut = r.below(sched.len() as u64 + 1) as usize;
+            sched.truncate(cut);
         }
         cases.push(("generated".into(), h, readers, sched));
     }
 
     let mut idx = 0usize;
-    let mut known_seen = BTreeSet::new();
+    let mut known_seen = false;
     for (tag, h, readers, sched) in cases {
         let o = drive(&h, &readers, &sched);
         *hist.entry(format!("kind:{}", tag.split(':').next().unwrap())).or_insert(0) += 1;
         *hist.entry(format!("readers:{}", readers.len())).or_insert(0) += 1;
         *hist.entry(format!("ops:{}", h.len())).or_insert(0) += 1;
         let input = json!({"tag": tag, "history": h.iter().map(|o| format!("{:?}", o)).collect::<Vec<_>>(), "reads_per_reader": readers,
-            "schedule": o.executed, "observations": o.obs.iter().map(|(t, v)| format!("{}:{:?}", t, v)).collect::<Vec<_>>()});
+            "schedule": o.executed, "observations": o.obs.iter().map(|(t, v)| format!("{}:{:?}", t, v)).collect::<Vec<_>>(), "safe": o.safe});
         if idx < 5 {
             rep.case(idx, input.clone());
         }
@@ -423,60 +485,33 @@ fn main() {
             fails += 1;
             rep.fail(idx, None, &format!("driver anomaly: {}", an), input.clone());
         }
-        // direct property
-        let mut first: BTreeMap<usize, View> = BTreeMap::new();
-        let mut interesting = false;
         for (i, (t, v)) in o.obs.iter().enumerate() {
-            let (lo, hi, torn_class, root_at_acq) = o.windows.get(t).copied().unwrap_or((0, h.len(), false, false));
-            if torn_class {
-                interesting = true;
+            let expect = spec_view(&h, o.acq_j[i]);
+            if *v == expect {
+                *hist.entry(if o.safe[i] { "read:safe".into() } else { "read:unsafe-but-equal".into() }).or_insert(0) += 1;
+                continue;
             }
-            match first.get(t) {
-                None => {
-                    first.insert(*t, v.clone());
-                    let okj = (lo..=hi.min(h.len())).any(|j| spec_view(&h, j) == *v);
-                    if !okj {
-                        // the first read itself may come after a sink step that rewrote the tree in place
-                        let class = if torn_class { Some("K-C03-torn") } else if o.sink_before[i] && root_at_acq { Some("K-C03-inplace") } else { None };
-                        if let Some(c) = class {
-                            *hist.entry(format!("finding:{}", &c[6..])).or_insert(0) += 1;
-                            interesting = true;
-                            if !known_seen.insert(c) {
-                                continue;
-                            }
-                        } else {
-                            fails += 1;
-                        }
-                        rep.fail(idx, class, &format!("reader {} sees {:?}, which is not the committed state after any prefix of length {}..{}", t, v, lo, hi), input.clone());
-                    }
-                }
-                Some(f) => {
-                    if f != v {
-                        let inplace_class = o.sink_before[i] && root_at_acq;
-                        let class = if inplace_class { Some("K-C03-inplace") } else if torn_class && o.sink_before[i] { Some("K-C03-torn") } else { None };
-                        interesting = true;
-                        if let Some(c) = class {
-                            *hist.entry(format!("finding:{}", &c[6..])).or_insert(0) += 1;
-                            if !known_seen.insert(c) {
-                                continue;
-                            }
-                        } else {
-                            fails += 1;
-                        }
-                        rep.fail(idx, class, &format!("reader {}'s snapshot changed: first read {:?}, later read {:?}", t, f, v), input.clone());
-                    }
+            if o.safe[i] {
+                fails += 1;
+                rep.fail(idx, None, &format!("reader {} (snapshot taken after {} published operations, no sink step since) sees {:?} instead of {:?}", t, o.acq_j[i], v, expect), input.clone());
+            } else {
+                *hist.entry("finding:inplace".into()).or_insert(0) += 1;
+                if !known_seen {
+                    known_seen = true;
+                    rep.fail(idx, Some("K-C03-inplace"), &format!("reader {}'s snapshot (taken after {} published operations) shows {:?} after a later compaction sank properties in place; committed state at acquisition {:?}", t, o.acq_j[i], v, expect), input.clone());
                 }
             }
         }
-        if interesting || o.sink_before.iter().any(|b| *b) {
+        if o.safe.iter().any(|b| !*b) || o.acq_j.iter().any(|j| *j > 0 && *j < h.len()) {
             nontrivial.insert((h.clone(), readers.clone(), o.executed.clone()));
         }
         cw.push(format!(
-            "{{| hist := {}; readers := {}; sched := {}; impl_obs := {} |}}",
+            "{{| hist := {}; readers := {}; sched := {}; impl_obs := {}; impl_safe := {} |}}",
             coq_list(&h, coq_wop),
             coq_list(&readers, |k| format!("{}%nat", k)),
             coq_list(&o.executed, |t| format!("{}%nat", t)),
-            coq_list(&o.obs, |(t, v)| format!("({}%nat, {})", t, coq_view(v)))
+            coq_list(&o.obs, |(t, v)| format!("({}%nat, {})", t, coq_view(v))),
+            coq_list(&o.safe, |b| coq_bool(*b).to_string())
         ));
         idx += 1;
     }
@@ -484,7 +519,7 @@ fn main() {
     rep.stats(json!({
         "evaluations": idx,
         "distinct_nontrivial": nontrivial.len(),
-        "rule": "writer histories of 1-5 commits/compactions (1-2 property sets, 0-2 new nodes, 0-2 relationships per transaction) against 1-2 readers with 1-3 reads; corpus witnesses, interleavings of one commit with one acquisition (all 495 in the thorough tier / n>=600, every 4th otherwise), sampled interleavings of one compaction with one acquisition, generated random and bursty schedules; non-trivial = the acquisition overlapped writer steps or a sink step ran during the snapshot's lifetime, distinct by (history, readers, schedule)",
+        "rule": "3 lock probes; writer histories of 2-6 commits/compactions (1-2 property sets, 0-2 new nodes, 0-2 relationships per transaction) against 1-3 readers with 1-3 reads, random interleavings of the model steps incl. prefixes; corpus; interleavings of the 12 writer steps of commit-compact-commit-compact with one reader's acquire + 2 reads (all 455 in the thorough tier / n>=600, every 4th otherwise); non-trivial = a snapshot taken strictly inside the history or an unsafe read, distinct by (history, readers, schedule)",
         "histogram": hist,
         "direct_failures": fails,
         "case_files": cw.files.iter().map(|p| p.to_string_lossy().to_string()).collect::<Vec<_>>(),
